@@ -25,6 +25,15 @@ class ResDomain(Domain):
     # and what is stored is translated back where it is judged (RES.8)
     entry_repr = 'bound'
 
+    def _cnt(self, which):
+        # entries that keep both: the count of the front batch is front.ub - bound (the relation between the two), the back's a symbol
+        return (Lin.sym('front.ub') - Lin.sym('bound')) if which == 'front' else Lin.sym('back.cnt')
+
+    def _rec(self, which):
+        f = {'type': E(self.val[which]), 'upperBound': self._ub(which)}
+        if self.entry_repr == 'dual': f['count'] = self._cnt(which)
+        return Record(f, tag=which)
+
     def _ub(self, which):
         if self.entry_repr == 'count':
             return (Lin.sym('front.ub') - Lin.sym('bound')) if which == 'front' else Lin.sym('back.cnt')
@@ -40,9 +49,10 @@ class ResDomain(Domain):
             which = path[-2][1:]
             if last == 'type': self.consulted.add(which); return E(self.val[which])
             if last == 'upperBound': return self._ub(which)
+            if last == 'count' and self.entry_repr == 'dual': return self._cnt(which)
         if last in ('@back', '@front'):
             which = last[1:]; self.consulted.add(which)
-            return Record({'type': E(self.val[which]), 'upperBound': self._ub(which)}, tag=which)
+            return self._rec(which)
         if last == 'm_activeOp': self.consulted.add('op'); return E(self.val['op'])
         if last == 'm_activeCount': return Lin.sym('cnt')
         if last == 'm_idCounter': return Lin.sym('next')
@@ -117,7 +127,7 @@ class ResDomain(Domain):
         if not rng: return None
         reverse = any(nm in ('rbegin', 'crbegin') for nm in names) or any('reverse' in (a.text() or '') for a in rng)
         def accepts(which):
-            rec = Record({'type': E(self.val[which]), 'upperBound': self._ub(which)}, tag=which)
+            rec = self._rec(which)
             self.consulted.add(which)
             rets = {P_.ret if isinstance(P_.ret, bool) else None for P_ in ex.run_closure(clo, args=[rec], this_path=fr.this)}
             return next(iter(rets)) if len(rets) == 1 else None
@@ -489,6 +499,18 @@ class ResourceAnalysis:
         def as_bound(x, extend):
             if not count_repr or not isinstance(x, Lin): return x
             return (x - Lin.sym('back.cnt') if extend else x) + Lin.sym('next')
+        dual = ResDomain.entry_repr == 'dual'
+        if dual and ext and not qs:
+            # an entry keeps its ticket bound and its request count side by side: a merge has to move both (bound := next+1, count := count+1)
+            ubw = [e for e in ext if e[2][0][1][-1] == 'upperBound']; cnw = [e for e in ext if e[2][0][1][-1] == 'count']
+            okd = (len(ubw) == 1 and len(cnw) == 1 and isinstance(ubw[0][2][1], Lin) and ubw[0][2][1] == nxt_at_enqueue and isinstance(cnw[0][2][1], Lin) and cnw[0][2][1] == Lin.sym('back.cnt') + Lin.const(1))
+            if ubw and cnw and not (isinstance(ubw[0][2][1], Lin) and isinstance(cnw[0][2][1], Lin)): self.unknown('RES.8', f'row {row}', ext[0][1].shortloc(), 'merged bound / count not understood')
+            else:
+                self.add('RES.16', okd, f'row {row}: a merge moves the entry\'s ticket bound and its request count together', ext[0][1].shortloc(),
+                         '' if okd else f'the merge writes bound {[str(e[2][1]) for e in ubw] or "not at all"} and count {[str(e[2][1]) for e in cnw] or "not at all"} (expected next+1 and count+1): the batch is admitted with a holder count that is not the number of its requests — '
+                                        'too small: the lock is handed on while batch members still hold it; too large: it is never released')
+                self.res8x(ubw[0][2][1] if ubw and isinstance(ubw[0][2][1], Lin) else nxt_at_enqueue, nxt_at_enqueue, row, ext[0][1].shortloc())
+            ext = ubw[:1] or ext[:1]
         if ext and not qs:
             tgt = ext[0][2][0][1][-2]
             val = as_bound(ext[0][2][1], True)
@@ -514,6 +536,12 @@ class ResourceAnalysis:
                 self.unknown('RES.8', f'row {row}', qs[0][1].shortloc(), f'pushed entry {val} not understood')
             else:
                 okrec = val.f.get('type') == E(v['t']) and as_bound(val.f.get('upperBound'), False) == nxt_at_enqueue
+                if dual:
+                    c_ = val.f.get('count', Lin.const(0))          # a member left out of the initialiser is value-initialised
+                    okc_ = isinstance(c_, Lin) and c_ == Lin.const(1)
+                    self.add('RES.16', okc_, f'row {row}: a new entry stands for one request (count = 1)', qs[0][1].shortloc(),
+                             '' if okc_ else f'the entry is pushed with request count {c_} (a member left out of the initialiser is 0): the batch is admitted with a holder count that is not the number of its requests — '
+                                             'too small: the lock is handed on while batch members still hold it / a writer is admitted next to them; too large: it is never released')
                 self.add('RES.8', okrec, f'row {row}: pushed entry is {{t, next+1}}', qs[0][1].shortloc(), '' if okrec else f'pushed {val}, expected {{type={v["t"]}, upperBound=next+1}}')
                 self.res8x(as_bound(val.f.get('upperBound'), False), nxt_at_enqueue, row, qs[0][1].shortloc())
             self.add('RES.6', True, f'row {row}: push', qs[0][1].shortloc())
@@ -835,6 +863,8 @@ class ResourceAnalysis:
 
     def run(self):
         if self.rep.broken: return
+        if ResDomain.entry_repr != 'dual':
+            self.add('RES.16', True, 'queue entries keep one integral member (the ticket bound or the request count): nothing to keep in step', (self.facts.cls(CLS) or {}).get('loc', ''))
         self.widths()
         self.res1()
         self.lock_rows()
@@ -848,6 +878,7 @@ class ResourceAnalysis:
 RULE_TEXT = {
     'RES.1': 'every access to m_queue, m_activeOp, m_activeCount, m_idCounter, m_upperUnlockBound holds m_mutex (atomics are not exempt: the monitor state must change in one critical section); lock/unlock balanced',
     'RES.14': 'the state unlock() leaves behind when it releases the mutex: if it marks the resource idle while requests are queued (hand-over in a later critical section), lock() is evaluated in that state too and must not admit there',
+    'RES.16': 'an entry that keeps a request count next to its ticket bound keeps the two in step: a new entry counts 1, a merge moves both (the holder count credited at admission is the number of requests admitted)',
     'RES.15a': 'lock(), fast path: the state is examined and the holder is counted in one critical section (two requests are never admitted on the same observation)',
     'RES.15b': 'lock(), slow path: the state is examined and the ticket taken / the request queued in one critical section (a request never goes to sleep on a stale observation)',
     'RES.2a': 'fast path (no wait) => active op is None, or Read and the request is a read  [12+ rows of (queue empty, active op, request)]',
